@@ -1508,17 +1508,22 @@ class SpaceManager(SharedSpaceOperations):
         if isinstance(value, Interface) and refmode == "relative":
             basevalue = value._impl.idstr
             for subspace in self._get_subs(space):
-                if name in subspace.own_refs:
-                    break
-                else:
-                    subvalue = self._graph.get_relative(
-                        subspace.idstr, space.idstr,
-                        basevalue)
-                    if not subvalue:
-                        raise ValueError(
-                            "Cannot create relative reference for '%s' in '%s'"
-                            % (basevalue, subspace.idstr)
-                        )
+                # Only the sub spaces that derive the name from ``space``:
+                # the first space in the MRO that defines the name
+                for b in self._get_space_bases(subspace, skip_self=False):
+                    if b is space or (name in b.own_refs
+                                      and b.own_refs[name].is_defined()):
+                        break
+                if b is not space:
+                    continue
+                subvalue = self._graph.get_relative(
+                    subspace.idstr, space.idstr,
+                    basevalue)
+                if not subvalue:
+                    raise ValueError(
+                        "Cannot create relative reference for '%s' in '%s'"
+                        % (basevalue, subspace.idstr)
+                    )
 
     def new_ref(self, space, name, value, refmode):
 
